@@ -14,7 +14,7 @@ PROPERTY_ID = 'C16'
 
 RULE = ('Hypothesis draws the state dimension d (1..3), snapshot count m (under- and over-determined, optionally with a '
         'duplicated snapshot = exact rank deficiency), output dimension, scalar basis lists (coordinate-/function-major, '
-        'add_one) or product bases of Function objects (kernel variant, ARR), thresholds (0 when the dense spectrum is well '
+        'add_one) or product bases of Function objects incl. user-defined ones and modes with a single function (kernel variant, ARR), thresholds (0 when the dense spectrum is well '
         'conditioned, 1e-9 otherwise), ARR guess ranks, repeats 1..4 and rcond = 1e-13. Oracle: numpy.linalg.pinv of the '
         'explicitly built transformed data matrix: Xi_mat == (y pinv(Psi, rcond))^T; kernel variant z G == y pinv(Psi) Psi; ARR '
         'per-output residual ||Xi^T Psi - y|| non-increasing in the sweep count (slack 1e-7 ||y||), ranks of the guess kept, guess '
@@ -120,7 +120,7 @@ def body_mandy(c):
 def kernel_case(draw):
     d = draw(st.integers(1, 3))
     p = draw(st.integers(1, 3))
-    phi = [[c15.fn_spec(draw, d) for _ in range(draw(st.sampled_from([2, 3, 3])))] for _ in range(p)]
+    phi = [[c15.fn_spec(draw, d) for _ in range(draw(st.sampled_from([1, 2, 3, 3])))] for _ in range(p)]
     N = int(np.prod([len(f) for f in phi]))
     gram = draw(st.sampled_from(['regular', 'regular', 'extra_snapshots', 'duplicate']))
     m = draw(st.sampled_from([1, 2, 3, 4, 6]))
@@ -153,6 +153,10 @@ def body_kernel(c):
         lab.add('several_outputs')
     if m == 1:
         lab.add('m1')
+    if any(len(f) == 1 for f in c['phi']):
+        lab.add('single_function_mode')
+    if any(s_['family'] in c15.USER_FAMS for f in c['phi'] for s_ in f):
+        lab.add('user_defined_function')
     return lab
 
 
@@ -160,7 +164,7 @@ def body_kernel(c):
 def arr_case(draw):
     d = draw(st.integers(1, 3))
     p = draw(st.integers(2, 4))
-    phi = [[c15.fn_spec(draw, d) for _ in range(draw(st.sampled_from([2, 2, 3])))] for _ in range(p)]
+    phi = [[c15.fn_spec(draw, d) for _ in range(draw(st.sampled_from([1, 2, 2, 3])))] for _ in range(p)]
     n = [len(f) for f in phi]
     mr = dense.max_ranks(n)
     ranks = [1] + [draw(st.integers(1, min(mr[i], 3))) for i in range(1, p)] + [1]
@@ -225,6 +229,10 @@ def body_arr(c):
         lab.add('exactly_fittable')
     if c['d'] == 1:
         lab.add('d1')
+    if any(len(f) == 1 for f in c['phi']):
+        lab.add('single_function_mode')
+    if any(s_['family'] in c15.USER_FAMS for f in c['phi'] for s_ in f):
+        lab.add('user_defined_function')
     return lab
 
 
@@ -235,7 +243,7 @@ def nt(labels):
 SUBCHECKS = [
     Sub('mandy', mandy_case(), body_mandy, nt, quick=400, thorough=4000, shards_quick=4,
         classes=['mandy_cm', 'mandy_fm', 'duplicated_snapshot', 'underdetermined', 'overdetermined', 'add_one_false', 'threshold>0', 'd1']),
-    Sub('kernel', kernel_case(), body_kernel, nt, quick=300, thorough=3000, classes=['kernel', 'several_outputs', 'singular_gram', 'regular_gram']),
+    Sub('kernel', kernel_case(), body_kernel, nt, quick=300, thorough=3000, classes=['kernel', 'several_outputs', 'singular_gram', 'regular_gram', 'single_function_mode', 'user_defined_function']),
     Sub('arr', arr_case(), body_arr, nt, quick=150, thorough=1500, shards_quick=6, budget_quick=150,
-        classes=['arr', 'several_outputs', 'exactly_fittable', 'repeats1', 'repeats4']),
+        classes=['arr', 'several_outputs', 'exactly_fittable', 'repeats1', 'repeats4', 'single_function_mode']),
 ]
